@@ -26,7 +26,7 @@ def listenRun : Nat → S → List Bool → S
     | some (_, s') => listenRun fuel s' fails
 
 def maskBits (m : String) : Option (List Bool) :=
-  m.toList.mapM fun c => if c = '1' then some true else if c = '0' then some false else none
+  m.toList.mapM fun c => if c = '1' ∨ c = '2' then some true else if c = '0' then some false else none   -- 1: port taken, 2: address not assigned to this host
 
 def stepListen (toks : List String) : Option String :=
   match toks with
